@@ -200,6 +200,14 @@ class Rewrites(Suite):
             a = dict(classes=c2, files={}, context=None, base={'name': 'm', 'data': {'tasks': ['@M.*'], 'sel': 1}})
             b = dict(classes=c2, files={}, context=None, base={'name': 'm', 'data': {'tasks': ['@M.*'], 'sel': 1, 'opt': spelled}})
             out.append(dict(orig=a, rewr=b, moves=['spell-out-default:' + dt], prefix=''))
+        # a placeholder string under dont_persist_default_value: with one value of the placeholder the substituted
+        # string equals the default (the parameter is dropped from the key), with another it does not (K2c)
+        cp = [dict(K(0, 'Src', params=[P('sel'), P('q', default=['/mnt/x'], dropdef=True)]), name='src'),
+              dict(K(1, 'Dst', meta_inputs=[{'cls': 0}]), name='dst')]
+        gv_case = lambda d: dict(classes=cp, files={}, context=None, global_vars={'D': d},
+                                 base={'name': 'm', 'data': {'tasks': ['@M.*'], 'sel': 1, 'q': '{D}/x'}})
+        out.append(dict(orig=gv_case('/mnt'), rewr=gv_case('/srv'), moves=['global-vars:placeholder-equals-default'], prefix=''))
+        out.append(dict(orig=gv_case('/a'), rewr=gv_case('/srv'), moves=['global-vars'], prefix=''))
         # inputs collected by a pattern: the order in which the tasks are declared must not matter
         parts = [dict(K(i, f'Part{i}', params=[P('sel')]), name=f'part_{n}') for i, n in enumerate(['b', 'a', 'c'])]
         coll = dict(K(3, 'Collect', meta_inputs=[{'name': '~part_.*'}]), name='collect')
@@ -410,6 +418,13 @@ def has_set_attribute(v):
     return False
 
 
+def placeholder_default_class(violation, known):
+    """K2c: the only rewriting changed global_vars, and a parameter under dont_persist_default_value holds a placeholder
+    string that equals its default under one of the two values"""
+    return (violation.get('suite') == 'rewritings'
+            and violation.get('case', {}).get('moves') == ['global-vars:placeholder-equals-default'])
+
+
 def hash_seed_class(violation, known):
     """K2b: a parameter object that keeps a SET of strings as an attribute - its repr follows the hash seed"""
     return violation.get('suite') == 'fresh_interpreters' and has_set_attribute(violation.get('case', {}).get('case', {}))
@@ -497,7 +512,7 @@ class C02(Prop):
     pid = 'C02'
     suites = [Rewrites(), Registry(), ObjectArgOrder(), HashSeeds(), PathDefaults()]
     known_classes = {'object-argument-order': object_order_class, 'object-argument-order-registry': object_arg_order_class,
-                     'hash-seed-set-attribute': hash_seed_class}
+                     'hash-seed-set-attribute': hash_seed_class, 'placeholder-equals-default': placeholder_default_class}
     trusted_base = ['the interpreter hash seed is not in the model (partial): it is exercised by fresh interpreters only']
     assumptions = ['values are JSON-like or objects rendered by their own repr']
 
